@@ -91,3 +91,34 @@ Example C07_int_float_equal_is_undecided :
   sv_less1 (new_sort_value false (VInt 1)) (new_sort_value false (VFloat 1)) = TU /\
   sv_less1 (new_sort_value false (VFloat 1)) (new_sort_value false (VInt 1)) = TU.
 Proof. vm_compute. split; reflexivity. Qed.
+
+(* ---- numeric key columns mixing integers and floats ----------------------------------------------------- *)
+(* The class list `cs` of the two theorems above also ranges over KCNum (Proofs/OrderNum.v): NULLs, ANY
+   integers and finite floats.  SortValue.Less compares an integer with a float by their exact values
+   (compareIntegerWithFloat, the repair of finding int-float-beyond-2p53), which is the order of the reals: *)
+Require Import Csvq.Proofs.OrderNum.
+Theorem C07_integer_float_comparison_is_exact : forall i f,
+  Flocq.IEEE754.BinarySingleNaN.is_finite (Flocq.IEEE754.PrimFloat.Prim2B f) = true ->
+  cmp_int_float i f = Flocq.Core.Raux.Rcompare (Coq.Reals.Rdefinitions.IZR i) (Flocq.IEEE754.BinarySingleNaN.B2R (Flocq.IEEE754.PrimFloat.Prim2B f)).
+Proof. exact cmp_int_float_correct. Qed.
+Print Assumptions C07_integer_float_comparison_is_exact.
+
+Example C07_numeric_keys_nonvacuous :
+  tuple_in [KCNum; KCNum] [new_sort_value false (VInt 9007199254740993); new_sort_value false (VFloat 2.5%float)] /\
+  tuple_in [KCNum; KCNum] [new_sort_value false (VFloat 9007199254740992%float); new_sort_value false VNull].
+Proof.
+  repeat split; try reflexivity; cbn.
+  - right. left. reflexivity.
+  - right. right. split; vm_compute; reflexivity.
+  - right. right. split; vm_compute; reflexivity.
+  - left. reflexivity.
+Qed.
+
+(* why the repair was needed: the shipped code converted the integer to a float first; then 2^53 and 2^53+1
+   both tie with the float 2^53 although 2^53 < 2^53+1, so ORDER BY could leave 2^53 after 2^53+1
+   (replay: rows 9007199254740993, 9007199254740992.0, 9007199254740992 in this order, ORDER BY that column) *)
+Theorem C07_shipped_integer_float_ties_not_transitive :
+  shipped_less_int_float 9007199254740993 (z2f 9007199254740992) = TU /\
+  shipped_less_int_float 9007199254740992 (z2f 9007199254740992) = TU /\
+  (9007199254740992 <? 9007199254740993)%Z = true.
+Proof. exact shipped_ties_not_transitive. Qed.
